@@ -15,13 +15,17 @@ literal-index table.  Proved here, for all stores:
   outputs (`C09.no_dead_ops`).
 * `trace_shift_equivariant` / `after_any_history` — **the trace itself**: whatever state an earlier history left
   (counter `n`, any records, any literal table), tracing a program there goes exactly as tracing it in a fresh
-  process with every id shifted by `n`, on top of the old records, up to the names of literals: the same commands
-  are accepted and rejected with the same errors, the registers and open function brackets hold the shifted
-  values, and every record the program stores is the shifted record (`shifted_lookup`).  Proved by a relational
-  simulation of all 28 commands (`Lemmas/Shift.lean`); the one command that reads the store (`Array(value, size)`)
-  needs that the ids in the registers are stored, which holds of every reachable machine (`trace_stored`).
-Not proved (decided by the K3 metamorphic run on the real code): that the *compiler walk* commutes with the id
-shift and the literal renaming (the walk is a pure function of the records it looks up, `compile_mono`).
+  process under an injective renaming (`histRen`: every id shifted by `n`, every literal renamed to the index its key
+  has in the later table), on top of the old records: the same commands are accepted and rejected with the same errors,
+  the registers and open function brackets hold the shifted values, and every record the program stores is the renamed
+  record (`shifted_lookup`).  Proved by a relational simulation of all 28 commands (`Lemmas/Shift.lean`); the one
+  command that reads the store (`Array(value, size)`) needs that the ids in the registers are stored, which holds of
+  every reachable machine (`trace_stored`).
+* `compile_after_history` — **the MIR**: if the program compiles to `m` in a fresh process, then after any history it
+  compiles to `m` renamed (`Lemmas/Rename.lean`: the compiler walk commutes with any injective renaming of ids and
+  literal names — `compile_ren`, by induction over the traversal, the output list and the function worklist).
+Not proved: the converse for *failing* compilations (that a compilation which fails in a fresh process fails alike
+after a history); the K3 run compares those outcomes on the real code.
 -/
 import NadaVerif.Lemmas.Mono
 import NadaVerif.Lemmas.Shift
@@ -85,42 +89,76 @@ theorem later_program_nothing_missing (cs more : List Cmd) (outs : List OutDecl)
     compile (runCmds (runCmds {} cs).1 more).1.st outs ≠ .error .key :=
   C01.history_compile_no_missing cs more outs ho
 
-/-- **The trace of a program does not depend on what the process traced before**, up to the id shift and literal
-names: from the state `⟨n, hist, lits⟩` any history left — with no assumption on it at all — the same commands are
-accepted and rejected, with the same errors; the counter, the registers, the open function brackets and the records
-stored are those of a fresh process shifted by `n`, the old records lying behind them. -/
+/-- the renaming of operation ids and literal names that the history `⟨n, hist, lits⟩` induces on the program `cs`:
+ids are shifted by `n`; a literal goes to the name its key (value and type) has in the later process's table -/
+def histRen (n : Nat) (hist : List (Id × AstOp)) (lits : List String) (cs : List Cmd) : Ren :=
+  shiftRen n (runCmds {} cs).1.st.lits (runCmds { st := ⟨n, hist, lits⟩ } cs).1.st.lits
+
+theorem related_after (n : Nat) (hist : List (Id × AstOp)) (lits : List String) (cs : List Cmd) :
+    MRel n hist (runCmds {} cs).1 (runCmds { st := ⟨n, hist, lits⟩ } cs).1 ∧
+    (runCmds {} cs).2 = (runCmds { st := ⟨n, hist, lits⟩ } cs).2 := by
+  have h0 : MRel n hist ({} : Mach) { st := ⟨n, hist, lits⟩ } :=
+    ⟨⟨by simp, by simp, by simp, by simp, by simp⟩, by simp [shiftRegs], by simp [shiftFrames]⟩
+  exact runCmds_sim cs h0 machSto_init
+
+/-- **The trace of a program does not depend on what the process traced before**, up to the renaming of ids and
+literal names: from the state `⟨n, hist, lits⟩` any history left — with no assumption on it at all — the same commands
+are accepted and rejected, with the same errors; the counter, the registers, the open function brackets and the records
+stored are those of a fresh process renamed (ids shifted by `n`, literals renamed by key), the old records lying behind
+them; the renaming is injective. -/
 theorem trace_shift_equivariant (n : Nat) (hist : List (Id × AstOp)) (lits : List String) (cs : List Cmd) :
     (runCmds { st := ⟨n, hist, lits⟩ } cs).2 = (runCmds {} cs).2 ∧
     (runCmds { st := ⟨n, hist, lits⟩ } cs).1.st.counter = (runCmds {} cs).1.st.counter + n ∧
-    (runCmds { st := ⟨n, hist, lits⟩ } cs).1.st.ops.map eraseE =
-      (runCmds {} cs).1.st.ops.map (shiftEraseE n) ++ hist.map eraseE ∧
+    (runCmds { st := ⟨n, hist, lits⟩ } cs).1.st.ops =
+      (runCmds {} cs).1.st.ops.map (renE (histRen n hist lits cs)) ++ hist ∧
     (runCmds { st := ⟨n, hist, lits⟩ } cs).1.regs = shiftRegs n (runCmds {} cs).1.regs ∧
-    (runCmds { st := ⟨n, hist, lits⟩ } cs).1.frames = shiftFrames n (runCmds {} cs).1.frames := by
-  have h0 : MRel n hist ({} : Mach) { st := ⟨n, hist, lits⟩ } :=
-    ⟨⟨by simp, by simp⟩, by simp [shiftRegs], by simp [shiftFrames]⟩
-  have h := runCmds_sim cs h0 machSto_init
-  exact ⟨h.2.symm, h.1.st.counter, h.1.st.ops, h.1.regs, h.1.frames⟩
+    (runCmds { st := ⟨n, hist, lits⟩ } cs).1.frames = shiftFrames n (runCmds {} cs).1.frames ∧
+    Ren.Inj (histRen n hist lits cs) := by
+  have h := related_after n hist lits cs
+  exact ⟨h.2.symm, h.1.st.counter, h.1.st.ops, h.1.regs, h.1.frames, shiftRen_inj _ _ h.1.st.nodup h.1.st.sub⟩
 
 /-- the special case the property names: the earlier history is itself a trace — complete programs, rejected
 commands, aborted function bodies, whatever `cs0` is -/
 theorem after_any_history (cs0 cs : List Cmd) :
     let h := (runCmds {} cs0).1.st
     (runCmds { st := h } cs).2 = (runCmds {} cs).2 ∧
-    (runCmds { st := h } cs).1.st.ops.map eraseE =
-      (runCmds {} cs).1.st.ops.map (shiftEraseE h.counter) ++ h.ops.map eraseE ∧
+    (runCmds { st := h } cs).1.st.ops =
+      (runCmds {} cs).1.st.ops.map (renE (histRen h.counter h.ops h.lits cs)) ++ h.ops ∧
     (runCmds { st := h } cs).1.regs = shiftRegs h.counter (runCmds {} cs).1.regs := by
   intro h
   have := trace_shift_equivariant h.counter h.ops h.lits cs
   exact ⟨this.1, this.2.2.1, this.2.2.2.1⟩
 
-/-- every record the later program stored is found under the shifted id, shifted, up to the literal's name — the
-old records never shadow it -/
+/-- every record the later program stored is found under the shifted id, renamed — the old records never shadow it -/
 theorem shifted_lookup (n : Nat) (hist : List (Id × AstOp)) (lits : List String) (cs : List Cmd) (c : Id) (op : AstOp)
     (h : (runCmds {} cs).1.st.lookup c = some op) :
-    ((runCmds { st := ⟨n, hist, lits⟩ } cs).1.st.lookup (c + n)).map AstOp.eraseIdx = some (op.shift n).eraseIdx := by
-  have h0 : MRel n hist ({} : Mach) { st := ⟨n, hist, lits⟩ } :=
-    ⟨⟨by simp, by simp⟩, by simp [shiftRegs], by simp [shiftFrames]⟩
-  exact lookup_rel (runCmds_sim cs h0 machSto_init).1.st c op h
+    (runCmds { st := ⟨n, hist, lits⟩ } cs).1.st.lookup (c + n) = some (op.ren (histRen n hist lits cs)) :=
+  lookup_rel (related_after n hist lits cs).1.st c op h
+
+/-- **The MIR of a program compiled after any history is the MIR of the program compiled in a fresh process, up to
+the renaming of operation ids and literal names** (`MirProg.ren`: every table, the function list, the inputs, the
+literal table and the outputs renamed; parties untouched): tracing is equivariant (`trace_shift_equivariant`), the
+compiler walk commutes with an injective renaming (`compile_ren`), and the records the history left behind are never
+looked at (`earlier_history_irrelevant`). -/
+theorem compile_after_history (n : Nat) (hist : List (Id × AstOp)) (lits : List String) (cs : List Cmd)
+    (outs : List OutDecl) (m : MirProg) (hc : compile (runCmds {} cs).1.st outs = .ok m) :
+    compile (runCmds { st := ⟨n, hist, lits⟩ } cs).1.st (outs.map (OutDecl.ren (histRen n hist lits cs))) =
+      .ok (m.ren (histRen n hist lits cs)) := by
+  obtain ⟨_, _, hops, _, _, hinj⟩ := trace_shift_equivariant n hist lits cs
+  have h1 := compile_ren hinj (runCmds {} cs).1.st outs
+  rw [hc] at h1
+  have h2 := earlier_history_irrelevant ((runCmds {} cs).1.st.ops.map (renE (histRen n hist lits cs))) hist
+    (runCmds {} cs).1.st.counter (runCmds { st := ⟨n, hist, lits⟩ } cs).1.st.counter
+    (runCmds {} cs).1.st.lits (runCmds { st := ⟨n, hist, lits⟩ } cs).1.st.lits
+    (outs.map (OutDecl.ren (histRen n hist lits cs))) (m.ren (histRen n hist lits cs)) h1
+  rw [← hops] at h2
+  exact h2
+
+/-- the outputs of the later compilation are the same registers: an output declared on register `r` of the fresh run
+is declared, after the history, on the same register, whose value carries the shifted id -/
+theorem outputs_follow_registers (n : Nat) (hist : List (Id × AstOp)) (lits : List String) (cs : List Cmd) (o : OutDecl) :
+    (o.ren (histRen n hist lits cs)).root = o.root + n ∧ (o.ren (histRen n hist lits cs)).name = o.name ∧
+    (o.ren (histRen n hist lits cs)).party = o.party := ⟨rfl, rfl, rfl⟩
 
 /-- Non-vacuity: a store with an earlier program's records (ids 1–3) behind program B (ids 4–6). -/
 def opsB : List (Id × AstOp) :=
